@@ -976,6 +976,18 @@ def other_sources(prog, rep):
             else:
                 rep.violation('R9d', k, where=c.where(), fn=c.fn.name, detail='{:?} formatting of %s prints elements in hash order' % c.gargs[0][:80])
     rep.extra['randomness_source_sites'] = n
+    # hash containers other than std's are not modelled by the iterator-type taint: none may appear in product code
+    other = re.compile(r'(?<![A-Za-z0-9_])(hashbrown|ahash|fxhash|rustc_hash|indexmap|dashmap)::')
+    seen_other = set()
+    for fn in prog.product_fns():
+        for l, t in fn.ty.items():
+            m = other.search(t)
+            if m and (fn.name, m.group(1)) not in seen_other:
+                seen_other.add((fn.name, m.group(1)))
+                rep.violation('R9d', '%s|unmodelled-hash-container|%s' % (fn.name, m.group(1)), fn=fn.name, where='%s:%d' % (fn.file, fn.line),
+                              detail='a %s container is used (%s): its iteration order is not covered by the hash-order analysis' % (m.group(1), t[:80]))
+    if not seen_other:
+        rep.ok('R9d', 'only-std-hash-containers', fn='(all product crates)', detail='no hashbrown / ahash / fxhash / indexmap / dashmap typed value in any product body', trivial=True)
     external_hash_args(prog, rep)
     task_order(prog, rep)
 
